@@ -24,6 +24,8 @@ CLAIMS = {
          "For every stop signal delivered during an ordered shutdown the dependents that were running when the shutdown began must already be dead in the simulated process table; seeded DAG shapes, running subsets and termination lags."),
  "C08": ("exploration", "3.C08", "seeded simulated runs with 2-4 concurrent client tasks; instance-overlap oracle at every launch (armed in every run of every property) and outcome-vs-activity oracle per request",
          "Concurrent and duplicate start/stop/restart requests (unknown names included) are issued by several client tasks against processes that exit fast, die slowly, restart or wait for dependencies; at every launch no other command of the replica may be alive, a successful stop must end in termination without relaunch, start must succeed iff no instance is active."),
+ "C20": ("exploration", "3.C20", "seeded simulated runs under the Go race detector (serialised schedules, happens-before-faithful simulated sync primitives, scheduler hand-offs hidden from the detector) + panic and blocked-forever oracles",
+         "2-5 client tasks issue state/log queries, subscriptions and start/stop/restart/scale/shutdown requests against projects whose processes exit, restart and log, plus a poller with the TUI's access pattern; every seeded schedule runs under the Go race detector, which reports each pair of conflicting accesses the schedule visits that no synchronisation of the code under test orders - deterministically per seed and replayable. Panics in any task and calls that never return are violations too."),
  "C09": ("exploration", "3.C09", "seeded simulated runs; every status transition observed synchronously; reported state vs simulated process table at every stable point",
          "Every transition (synchronous hook, not sampled) is checked against the legal relation and the reported state is compared with ground truth at every stable point of every run."),
 }
